@@ -36,8 +36,9 @@ type NondetRec struct {
 
 // Event is an entry of the per-path trace.
 type Event struct {
-	Tag  string
-	Args []Value
+	Tag    string
+	Args   []Value
+	Result Value
 }
 
 // Violation is an assertion that the solver showed can fail.
